@@ -186,6 +186,39 @@ func zzRxDatagramNoPanic() {
 	zzsymAssert(len(c.encryptedPackets) <= maxAppDataPacketQueueSize, "queue_within_cap")
 }
 
+// The drain of the early-packet queue re-processes parked datagrams WITHOUT a read-buffer lease (handleQueuedPackets
+// passes nil): a parked DTLS 1.3 ciphertext record whose epoch bits match no installed read generation - forged before
+// the victim had any keys, or simply one epoch ahead - is still "future" at that moment. Endpoint with read keys of epoch
+// 2 only (just installed) or of epochs 2 and 3; one unified-header record with arbitrary first byte (epoch bits, C/S/L
+// bits), sequence number and length bytes and a 17-byte body; lease present or nil. No panic; nothing delivered without a
+// matching generation.
+//
+//symgo:entry covers=future_ciphertext_with_lease,future_ciphertext_at_drain
+func zzRxFutureCiphertextNoPanic() {
+	c := zzConn8(&zzSuite8{}, zzsymChoice("client", 2) == 1)
+	st := dtlsstate.Activate13(c.state)
+	c.state = st
+	st.LocalVersion = protocol.Version1_3
+	st.TrafficKeys.Install(nil, &dtlsstate.TrafficGeneration{Epoch: 2, Protection: &zzProt8{}})
+	st.SetRemoteEpoch(2)
+	if zzsymChoice("application_keys", 2) == 1 {
+		st.TrafficKeys.Install(nil, &dtlsstate.TrafficGeneration{Epoch: 3, Protection: &zzProt8{}})
+		st.SetRemoteEpoch(3)
+	}
+	rec := append(zzsymBytes("rec_header", 5), make([]byte, 17)...) // what the body holds is zzRxDatagramNoPanic's subject
+	zzsymAssume(rec[0]&0xe0 == 0x20)
+	var bl *readBufferLease
+	if zzsymChoice("lease", 2) == 1 {
+		buf := make([]byte, 0)
+		bl = &readBufferLease{conn: c, recyclableReadBuffer: &buf}
+		zzsymCover("future_ciphertext_with_lease")
+	} else {
+		zzsymCover("future_ciphertext_at_drain")
+	}
+	_, _ = c.handleIncomingPacket(context.Background(), rec, &net.UDPAddr{Port: 2}, bl)
+	zzsymAssert(len(c.encryptedPackets) <= maxAppDataPacketQueueSize, "queue_within_cap")
+}
+
 // "Datagrams that cannot be parsed as DTLS records are dropped, and the endpoint keeps serving": an arbitrary
 // datagram of every length 1..NJUNK that Conn.unpackDatagram rejects must be classified by the read loop as "discard
 // and continue" in every endpoint state (before the handshake has completed the alternative is that the read loop stops
